@@ -470,3 +470,23 @@ package dt
 //@   loop 2 invariant forall k: int :: rangeindex < k && k < len(elems) ==> elems[k] != nil && allocated(elems[k]) && elems[k].list == nil && elems[k].ok
 //@   loop 2 invariant forall a: int, b: int :: withmtrig(elems[a], elems[b], 0 <= a && a < b && b < len(elems) ==> elems[a] != elems[b])
 //@   loop 2 invariant forall m: List :: withtrig(mark(m), m != l && old(wf(m)) ==> wf(m) && m.elems == old(m.elems))
+
+// ---------------------------------------------------------------------------
+// Sorting a Set (C18). An unordered, populated set becomes ordered first:
+// forceSetupOrdered builds the order list from the keys of the hash index,
+// and every key must then be indexed to its order element (setinv) - otherwise
+// a later Delete cannot unlink the value from the order.
+// ---------------------------------------------------------------------------
+
+//@ func (*Set).forceSetupOrdered
+//@   props C18
+//@   requires s != nil && s.hash != nil && s.list == nil && (forall k: int :: haskey(s.hash, k) ==> s.hash[k] == nil)
+//@   modifies s.list, mapelems(s.hash), List.root, List.length, Element.list, Element.next, Element.prev, List.elems, List.lastIns, Element.idx
+//@   ensures setinv(s) && s.list != nil && fresh(s.list) && s.hash == old(s.hash)
+//@   ensures keys: forall k: int :: haskey(s.hash, k) == old(haskey(s.hash, k))
+//@   ensures size: len(s.hash) == old(len(s.hash))
+//@   loop 1 invariant s.list != nil && fresh(s.list) && lwf(s.list) && s.hash == old(s.hash) && len(s.hash) == old(len(s.hash)) && visitcount() == len(s.list.elems)
+//@   loop 1 invariant forall k: int :: haskey(s.hash, k) == old(haskey(s.hash, k))
+//@   loop 1 invariant forall k: int :: visited(k) ==> haskey(s.hash, k) && s.hash[k] != nil && member(s.list, s.hash[k]) && cast(s.hash[k], "*Element").item == k
+//@   loop 1 invariant forall k: int :: haskey(s.hash, k) && !visited(k) ==> s.hash[k] == nil
+//@   loop 1 invariant forall i: int :: 0 <= i && i < len(s.list.elems) ==> visited(cast(s.list.elems[i], "*Element").item) && s.hash[cast(s.list.elems[i], "*Element").item] == s.list.elems[i]
